@@ -91,6 +91,7 @@ _FIXED_TYPES = {
     "UNICODE_STRING",
 }
 _WORD = re.compile(r"^[A-Za-z_][A-Za-z0-9_$]*$")
+_WORDS = re.compile(r"^[A-Za-z_]+(\s+[A-Za-z_]+)+$")
 
 
 def _tokenize(sql: str):
@@ -162,6 +163,11 @@ def lex(template: str) -> list[Tok]:
             elif re.search("[A-Za-z]", text):
                 # something with letters that is neither a word nor a known constant: keep it, say why
                 why = "unclassified"
+        if why == "unclassified" and _WORDS.match(text):
+            # the tokenizer joins some keyword pairs into one token ("order by", "group by"): words and gaps again
+            for piece in re.split(r"(\s+)", text):
+                out.append(Tok(piece, "gap" if piece.isspace() else "fold"))
+            continue
         tk = Tok(text, kind, why, name=(a in marks))
         if tk.name and kind != "fold":
             raise ValueError(f"~ in front of a non-foldable token {text!r} in {template!r}")
